@@ -1,48 +1,8 @@
-"""C09 probe: the result of a hash job (cause CONFIRMED) arrives after the file node was detached
-and taken over by another declaration (or deleted): Workflow.update_file_hashes raises
-ConsistencyError.  Executor._run_hash_job applies the result without re-checking the state.
+"""C09 probe (D17): see harness/c09_hashjob.py.
 
 Run: PYTHONPATH=/repo:/repo/tests:/verif PYTHONHASHSEED=0 /venv/bin/python /verif/probes/c09_stale_hash_result.py
 """
 import asyncio
-from harness import e2
+from harness.c09_hashjob import stale_hash_scenario
 
-
-async def main():
-    impl = e2.Impl(3)
-    await impl.start()
-    try:
-        async def ap(op):
-            r = await impl.apply(op)
-            print(op[0], op[1:4], "->", r)
-            return r
-        await ap(("declare_static", ("root", ""), ("plan.py",)))
-        await ap(("update_hashes", "CONFIRMED", (("plan.py", 1),)))
-        await ap(("define_step", ("root", ""), "./plan.py", ("plan.py",), (), (), (), "PLAN"))
-        async with impl.db:
-            impl.db.execute("UPDATE step SET _safe = 1, _safe_ignoring_hold = 1, _check_safe = 0")
-        print("dispatch", await impl.dispatch())
-        await ap(("reset_for_rerun", "./plan.py"))
-        # the plan declares f5 static: a hash job (cause CONFIRMED) is queued for it ...
-        await ap(("declare_static", ("step", "./plan.py"), ("f5",)))
-        await ap(("define_step", ("step", "./plan.py"), "A", (), (), (), (), "DEFAULT"))
-        print("dispatch", await impl.dispatch())
-        await ap(("reset_for_rerun", "A"))
-        # ... the plan ends and is rerun before the hash job ran: f5 and A become detached while A
-        # is still running
-        await ap(("exec_end", "./plan.py", (), "SUCCEEDED", (), True, False))
-        await ap(("mark_step_pending", "./plan.py"))
-        print("dispatch", await impl.dispatch())
-        await ap(("reset_to_pending", "./plan.py"))
-        print("dispatch", await impl.dispatch())
-        await ap(("reset_for_rerun", "./plan.py"))
-        # A (running) amends: f5 is a volatile output; the stale node is taken over
-        await ap(("amend_step", "A", (), (), (), ("f5",)))
-        # the hash job finishes now
-        r = await ap(("update_hashes", "CONFIRMED", (("f5", 7),)))
-        print("RESULT", r)
-    finally:
-        impl.close()
-
-
-asyncio.run(main())
+print("RESULT", asyncio.run(stale_hash_scenario()))
